@@ -146,18 +146,22 @@ def rdSegOpt (p : Option (List Nat)) (lo n : Nat) : R (Option (List Nat)) :=
     | .ok xs => .ok (some xs)
     | .error e => .error e
 
-/-- `RowBlock::operator[](rowid)` followed by reading every element of the row through the `Row`
-accessors (which is what the harness does under AddressSanitizer) -/
+/-- reading every element of the row `operator[]` returned (label, weight, qid through the pointers that are
+not NULL; `n` entries starting at `lo`), which is what the harness does under AddressSanitizer -/
+def Block.readRow (b : Block) (i lo n : Nat) : R RowVal := do
+  let l ← rd1 b.label i
+  let w ← rd1 b.weight i
+  let q ← rd1 b.qid i
+  let f ← rdSegOpt b.field lo n
+  let ix ← rdSeg (ext b.index) lo n
+  let v ← rdSegOpt b.value lo n
+  pure { label := l, weight := w, qid := q, field := f, index := ix, value := v }
+
+/-- `RowBlock::operator[](rowid)` followed by reading the row -/
 def Block.row (b : Block) (i : Nat) : R RowVal :=
   if Gen.RowBlock.rowIdOk i b.size then
     match b.offset[i]?, b.offset[i + 1]? with
-    | some lo, some hi =>
-      let n := Gen.RowBlock.rowLen hi lo
-      match rd1 b.label i, rd1 b.weight i, rd1 b.qid i, rdSegOpt b.field lo n, rdSeg (ext b.index) lo n,
-            rdSegOpt b.value lo n with
-      | .ok l, .ok w, .ok q, .ok f, .ok ix, .ok v =>
-        .ok { label := l, weight := w, qid := q, field := f, index := ix, value := v }
-      | _, _, _, _, _, _ => .error .oob
+    | some lo, some hi => b.readRow i lo (Gen.RowBlock.rowLen hi lo)
     | _, _ => .error .oob
   else .error .check
 
@@ -361,11 +365,11 @@ def loadVec (w : Nat) (bs : Bytes) : Option (List Nat × Bytes) :=
   else none
 
 /-- `fi->Read(&x, sizeof(IndexType))` with the CHECK on its (non-zero) return value: a short read
-overwrites only the low bytes of the old value -/
+overwrites only the low bytes of the old (`w`-byte) value -/
 def loadRaw (w : Nat) (old : Nat) (bs : Bytes) : Option (Nat × Bytes) :=
   let k := Nat.min w bs.length
   if k = 0 then none
-  else some (deN (bs.take k) + old / 256 ^ k * 256 ^ k, bs.drop k)
+  else some (deN (bs.take k) + old % 256 ^ w / 256 ^ k * 256 ^ k, bs.drop k)
 
 inductive LoadRes
   | eof                                  -- Load returned false
